@@ -28,6 +28,11 @@ fi
 cat > .build/C29.overlay.json <<JSON
 {"Replace": {"/repo/cmd/scriggo/verif_c29_test.go": "/verif/checks/c29/verif_c29_test.go.txt"}}
 JSON
+if [ -n "${VERIF_OVERLAY:-}" ]; then
+  # bin/mutate (overlay mode): merge its overlay with ours, an explicit -overlay flag would hide GOFLAGS' one
+  python3 -c "import json,sys;a=json.load(open('.build/C29.overlay.json'));b=json.load(open(sys.argv[1]));a['Replace'].update(b['Replace']);json.dump(a,open('.build/C29.overlay.json','w'))" "$VERIF_OVERLAY" || exit 2
+  export GOFLAGS=-mod=mod
+fi
 # the test binary of cmd/scriggo with the driver added (rebuilt from /repo's current tree)
 if ! (cd /repo && go test -c -overlay /verif/.build/C29.overlay.json -vet=off -o /verif/.build/C29.test github.com/open2b/scriggo/cmd/scriggo) >.build/C29.testbuildlog 2>&1; then
   cat .build/C29.testbuildlog >&2
